@@ -165,11 +165,24 @@ func obs(v interface{}) string {
 		return "false"
 	case error:
 		return "error"
+	case int:
+		return strconv.FormatUint(uint64(x), 10)
+	case int64:
+		return strconv.FormatUint(uint64(x), 10)
+	case int32:
+		return strconv.FormatUint(uint64(uint32(x)), 10)
+	case int16:
+		return strconv.FormatUint(uint64(uint16(x)), 10)
+	case int8:
+		return strconv.FormatUint(uint64(uint8(x)), 10)
 	}
 	return fmt.Sprint(v)
 }
 
 func CutActive(name string) bool { return Cuts[name] }
+
+// Draws: the number of Nondet values read so far (native side only; compared with the symbolic path's count).
+func Draws() int { return pos }
 
 // Symbolic reports whether the harness runs under the symbolic executor.
 func Symbolic() bool { return false }
